@@ -9,6 +9,8 @@ import Driver.BlockOps
 import Driver.ThreadsOps
 import Driver.TocOps
 import Driver.SerializerOps
+import Driver.PipelineOps
+import Driver.AttrListOps
 import Driver.ExtractOps
 import Driver.TriggerOps
 import Driver.InlineOps
@@ -17,6 +19,6 @@ import Driver.CodeOps
 
 namespace Driver
 
-def handlers : List Handler := [registryHandler, dispatchHandler, normalizeHandler, tablesHandler, blockHandler, threadsHandler, tocHandler, serializerHandler, codeHandler, pyHandler, inlineHandler, triggerHandler, extractEvHandler]
+def handlers : List Handler := [registryHandler, dispatchHandler, normalizeHandler, tablesHandler, blockHandler, threadsHandler, tocHandler, serializerHandler, codeHandler, pyHandler, inlineHandler, triggerHandler, extractEvHandler, attrListHandler, pipelineHandler]
 
 end Driver
